@@ -26,7 +26,7 @@ from common import REPO, CORPUS
 PROPERTY = "C06"
 RULE = ("schemas: gen/schema.py (sizes 1-3, + subscription root); documents valid by construction (operations, nested "
         "fragments, inline fragments, variables shared between operations through fragments, directives, input objects, "
-        "mergeable duplicate fields); each then gets every applicable one of 38 labelled single-rule violations (incl. variables INSIDE list literals, depth 1-2, below object fields) "
+        "mergeable duplicate fields); each then gets every applicable one of 39 labelled single-rule violations (incl. fragment cycles through the sub-selection of a field, variables INSIDE list literals, depth 1-2, below object fields) "
         "(26 rule visitors / 26 specification rules) and 8 metamorphic transformations; non-trivial = distinct "
         "(document text) that is either valid with >= 2 definitions or a fragment, or carries a violation")
 ASSUMPTIONS = [
